@@ -57,7 +57,31 @@ def main():
         o0, v0 = copy.deepcopy(o), copy.deepcopy(v)
         try:
             r = merge_config(o, v)
-            rec = {"result": r, "o_after": o, "v_after": v,
+            # values are passed through, not copied: a value of the result that is not a freshly merged dictionary IS
+            # the winning argument's own object (lists and one-sided dictionaries are checked: identity matters for them)
+            def passed_through(res, a, b):
+                for k, val in res.items():
+                    in_a, in_b = isinstance(a, dict) and k in a, isinstance(b, dict) and k in b
+                    if in_a and in_b and isinstance(a[k], dict) and isinstance(b[k], dict):
+                        if not isinstance(val, dict) or not passed_through(val, a[k], b[k]):
+                            return False
+                    else:
+                        src = b[k] if in_b else a[k] if in_a else None
+                        if isinstance(src, (list, dict)) and val is not src:
+                            return False
+                return True
+            same = passed_through(r, o if isinstance(o, dict) else {}, v if isinstance(v, dict) else {}) if isinstance(r, dict) else True
+            # the same two objects merged a second time, after the overrides have been given one more key: every call
+            # computes the merge of what its arguments hold NOW
+            again_ok = True
+            if isinstance(v, dict) and isinstance(r, dict) and "zz_second_call" not in v and "zz_second_call" not in (o or {}):
+                v["zz_second_call"] = 1
+                try:
+                    r2 = merge_config(o, v)
+                    again_ok = r2.get("zz_second_call") == 1 and {k: x for k, x in r2.items() if k != "zz_second_call"} == r
+                finally:
+                    del v["zz_second_call"]
+            rec = {"result": r, "o_after": o, "v_after": v, "passed_through": same, "second_call_ok": again_ok,
                    "fresh": isinstance(r, dict) and r is not o and r is not v,
                    "o_unchanged": o == o0, "v_unchanged": v == v0}
             json.dumps(rec)
